@@ -1,6 +1,6 @@
 (* C04 — The WSGI and ASGI stacks are observationally equivalent.  Statements only. *)
 From Coq Require Import List NArith Bool Arith.
-From Baize Require Import Lib.Wire Lib.Order C02.Model Resp.Model C04.Model C04.Proofs.
+From Baize Require Import Lib.Wire Lib.Order C02.Model Resp.Model C04.Model C04.Proofs C04.Apps C04.AppsProofs.
 Import ListNotations.
 
 (* Request view, headers: the mapping the WSGI request builds from the CGI rendering
@@ -38,7 +38,69 @@ Theorem response_equiv : forall r : recipe,
     end.
 Proof. exact response_equiv_proof. Qed.
 
+(* Request view, Host: the value a WSGI Hosts reads (HTTP_HOST of the environ the gateway
+   filled by assignment, "" when absent) is the one the ASGI Hosts' loop over the scope's
+   header list ends with. *)
+Theorem host_view_equiv : forall r : request,
+  C09.Model.wsgi_host (env_get (lit "HTTP_HOST") (environ_headers r)) = C09.Model.asgi_host (scope_headers r).
+Proof. exact host_equiv. Qed.
+
+(* Bundled applications.  An application is a tree of any depth and width (C04/Apps.v):
+     Leaf view          a view: what it sees of the request (method, root path, path, path
+                        parameters, header mapping) -> the response recipe it answers with
+     Route routes       Router: compiled paths in front of sub-applications (C08)
+     Mount routes       Subpaths: prefixes in front of sub-applications (C09)
+     HostSwitch table   Hosts: patterns in front of sub-applications, over any oracle
+                        [fullmatch] for Pattern.fullmatch (C09)
+   serve_wsgi runs the tree with the WSGI model functions of C08/C09/C04 on the environ
+   rendering of the abstract request, serve_asgi with the ASGI ones on the scope rendering.
+   For every tree, every oracle, every digit limit and every abstract request (header names
+   without underscore, as in headers_view_equiv; any root path, path, method, Host), provided
+   each view answers with recipes response_equiv speaks about (comparable_view: no raising
+   producer, no developer headers on an event stream, file chunk size >= 1):
+   both interfaces answer with a response (no exception, no missing start), the status and
+   the body bytes are equal, and the header lists are equal — or, when the answering leaf
+   is an event stream, the ASGI list is the WSGI list plus connection: keep-alive
+   (obs_equiv, headers_equiv in C04/AppsProofs.v).  The 404 of a Router / Subpaths and the
+   404 "Invalid host" of Hosts are among the answers compared. *)
+Theorem app_equiv : forall (P : Type) (fullmatch : P -> bytes -> bool) (lim : N) (rq : areq),
+  Forall (fun h => ~ In 95%N (fst h)) (rq_headers (aq_request rq)) ->
+  forall a : app P,
+  all_leaves comparable_view a ->
+  obs_equiv (serve_wsgi fullmatch lim rq a) (serve_asgi fullmatch lim rq a).
+Proof. exact (@app_equiv_proof). Qed.
+
+(* the same at any point below the root: whatever root path, path and path parameters the
+   dispatchers above have left in the environ / scope (the path present, an http scope) *)
+Theorem app_equiv_below : forall (P : Type) (fullmatch : P -> bytes -> bool) (lim : N) (rq : areq),
+  Forall (fun h => ~ In 95%N (fst h)) (rq_headers (aq_request rq)) ->
+  forall a : app P,
+  all_leaves comparable_view a ->
+  forall s : state,
+  C09.Model.lifespan (s_req s) = false /\ (exists p, C09.Model.path (s_req s) = Some p) ->
+  obs_equiv (run_wsgi fullmatch lim rq a s) (run_asgi fullmatch lim rq a s).
+Proof. exact (@run_equiv). Qed.
+
+(* non-vacuity: a mount over a router over a view that shows what it saw *)
+Example app_equiv_example :
+  let view := fun v : seen => RSmall (bare 200) (sn_root v ++ lit "|" ++ sn_path v) (lit "text/plain") (lit "utf-8") in
+  let a : app bytes := HostSwitch [(lit "h", Mount [(lit "/api", Route [([C08.Model.Lit (lit "/u/"); C08.Model.Param (lit "id") C08.Model.TInt], Leaf view)])])] in
+  let rq := {| aq_request := {| rq_method := lit "GET"; rq_query := []; rq_headers := [(lit "Host", lit "h")];
+                                rq_client := None; rq_body := [] |};
+               aq_root := lit "/r"; aq_path := lit "/api/u/12" |} in
+  all_leaves comparable_view a /\
+  serve_wsgi bytes_eqb 0 rq a =
+    OResp 200 [(lit "content-length", lit "12"); (lit "content-type", lit "text/plain; charset=utf-8")] (lit "/r/api|/u/12") /\
+  serve_asgi bytes_eqb 0 rq a = serve_wsgi bytes_eqb 0 rq a.
+Proof.
+  cbv zeta. split; [|split; vm_compute; reflexivity].
+  repeat (constructor; cbn [In]; intros ? [<-|[]]; cbn [snd]). constructor. intro v. exact I.
+Qed.
+
 Print Assumptions headers_view_equiv.
 Print Assumptions client_view_equiv.
 Print Assumptions body_view_equiv.
 Print Assumptions response_equiv.
+Print Assumptions host_view_equiv.
+Print Assumptions app_equiv.
+Print Assumptions app_equiv_below.
